@@ -88,6 +88,9 @@ def check_filter_table(ctx):
     col = out2.cols.get('EXTRA') if isinstance(out2, SymTable) else None
     names2 = out2.cols.get('MODEL_NAME') if isinstance(out2, SymTable) else None
     decided = False
+    if isinstance(col, Arr) and col.mask is None and col.ndim == 1 and col.dims[0] not in (R_, None) and isinstance(out2, SymTable) and out2.label == R_:
+        # a column built along another axis of the same length and attached to the table: it lands on the rows by position
+        col = Arr((R_,), alg.index_at(col.poly, col.dims[0], sym('idx:' + R_, R_)), unit=col.unit)
     if isinstance(col, Arr) and isinstance(names2, Arr) and col.mask is None and tuple(col.dims) == (R_,):
         want = [mk_fn('lookup', P(mk_fn('strip', P(names2.poly)))), mk_fn('lookup', P(names2.poly)), mk_fn('lookup', P(mk_fn('strip', P(sym('mname', R_))))), mk_fn('lookup', P(sym('mname', R_)))]
         if any(alg.is_zero(col.poly - w_)[0] for w_ in want):
